@@ -148,7 +148,9 @@ FBAlpha == <<
   [n |-> "x", v |-> <<L("@e@"), K, L("@f@")>>],                      \* 6  x = @e@$<nl>@f@
   [n |-> "z", v |-> <<VB("y"), L("-"), VB("x")>>],                   \* 7  z = ${y}-${x}     nesting depth 2 through y
   [n |-> "x", v |-> <<>>],                                           \* 8  x =               empty value shadows
-  [n |-> "y", v |-> <<V("z"), VB("undefined"), L("@g@")>>]           \* 9  y = $z${undefined}@g@
+  [n |-> "y", v |-> <<V("z"), VB("undefined"), L("@g@")>>],          \* 9  y = $z${undefined}@g@
+  [n |-> "x", v |-> <<VB("undefined")>>],                            \* 10 x = ${undefined}  expands to nothing: bound, and empty
+  [n |-> "description", v |-> <<>>]                                  \* 11 description =     empty, under a rule-variable name
 >>
 RCAlpha == <<
   <<L("cc "), V("in"), L(" -o "), V("out")>>,                                        \* 1 cc $in -o $out
@@ -170,7 +172,8 @@ REAlpha == <<
     [n |-> "rspfile_content", v |-> <<V("in_newline"), L(" "), V("y")>>]>>,                            \* 4 rspfile / rspfile_content
   <<[n |-> "generator", v |-> <<L("1")>>], [n |-> "restat", v |-> <<V("x")>>]>>,                       \* 5 generator = 1 / restat = $x
   <<[n |-> "pool", v |-> <<L("pl")>>]>>,                                                               \* 6 pool = pl
-  <<[n |-> "deps", v |-> <<L("msvc")>>]>>                                                              \* 7 deps = msvc
+  <<[n |-> "deps", v |-> <<L("msvc")>>]>>,                                                             \* 7 deps = msvc
+  <<[n |-> "description", v |-> <<>>], [n |-> "depfile", v |-> <<>>]>>                                 \* 8 description = / depfile =   EMPTY rule variables (shadow file-level ones; a second `description` wins)
 >>
 RNAlpha == <<"r", "q">>
 RuleAlpha ==
@@ -188,7 +191,9 @@ BBAlpha == <<
   <<[n |-> "pool", v |-> <<>>], [n |-> "y", v |-> <<L("@n@"), E(" "), E(":")>>]>>,                \* 6 pool = / y = @n@$ $:
   <<[n |-> "command", v |-> <<L("over "), V("in"), V("x")>>],
     [n |-> "x", v |-> <<L("@m@")>>], [n |-> "z", v |-> <<L("@s@")>>]>>,                           \* 7 command = over $in$x / x / z
-  <<[n |-> "z", v |-> <<L("1")>>], [n |-> "z", v |-> <<L("2"), K, V("y")>>]>>                     \* 8 z = 1 / z = 2$<nl>$y   (last wins)
+  <<[n |-> "z", v |-> <<L("1")>>], [n |-> "z", v |-> <<L("2"), K, V("y")>>]>>,                    \* 8 z = 1 / z = 2$<nl>$y   (last wins)
+  <<[n |-> "x", v |-> <<>>]>>,                                                                    \* 9 x =                    EMPTY build-level value shadows rule and file
+  <<[n |-> "description", v |-> <<>>], [n |-> "y", v |-> <<V("undefined")>>]>>                    \* 10 description = / y = $undefined
 >>
 \* output lists; the atoms of the second build statement are renamed (o -> p) so that outputs stay distinct
 OutAlpha(k) == LET a(s) == IF k = 1 THEN "@o" \o s \o "@" ELSE "@p" \o s \o "@" IN <<
@@ -380,6 +385,14 @@ FileFallback == Fresh =>
      LET ch == Chain(NewCmd.sc)
          I  == {i \in 1..Len(ch) : Has(scopes[ch[i]].vars, n)}
      IN  Lk(n) = <<S(IF I = {} THEN "" ELSE Get(scopes[ch[CHOOSE i \in I : \A j \in I : i <= j]].vars, n))>>
+\* a binding with an EMPTY value is a binding: it shadows non-empty values of the enclosing scopes at every level
+\* (file scope chain, build over rule/file, rule over file) - "bound to nothing" is not "unbound"
+EmptyShadows == Fresh =>
+  \A n \in ProbeNames \ BuiltIns :
+     /\ (Has(NewCmd.binds, n) /\ Get(NewCmd.binds, n) = "") => Lk(n) = <<S("")>>
+     /\ (~Has(NewCmd.binds, n) /\ Has(NewCmd.rule.vars, n) /\ Get(NewCmd.rule.vars, n) = <<>>) => Lk(n) = <<>>
+     /\ (~Has(NewCmd.binds, n) /\ ~Has(NewCmd.rule.vars, n) /\ Has(scopes[NewCmd.sc].vars, n) /\ Get(scopes[NewCmd.sc].vars, n) = "")
+           => Lk(n) = <<S("")>>
 \* $in / $in_newline are the EXPLICIT inputs only, $out is every output, whatever is bound under those names
 InOut == Fresh =>
   /\ Lk("in") = <<P("sp", NewCmd.ins)>>
